@@ -215,6 +215,11 @@ class OldStyleResponse(FakeResponse):
         return object.__getattribute__(self, "__dict__")["status"]
 
 
+class BrokenBodyResponse(FakeResponse):
+    def read(self):
+        raise ConnectionResetError(104, "injected: connection reset while reading the body")
+
+
 class FakeGraph:
     """request_func for SharePointRestClient: serves one library; `fault` = (request index, kind) or None."""
 
@@ -298,6 +303,8 @@ class FakeGraph:
                 raise HTTPError(req.full_url, int(kind[4:]), "injected", {}, fp)
             if kind == "urlerror":
                 raise URLError("injected: connection refused")
+            if kind == "readerror":
+                return BrokenBodyResponse(200, b"", self.responses)
             if kind == "badjson":
                 return FakeResponse(200, b'{"value": [', self.responses)
             if kind == "badutf8":
@@ -319,7 +326,9 @@ class FakeGraph:
 
 
 FAULT_KINDS = ["http404", "http401", "http500", "http503", "urlerror", "badjson", "badutf8", "emptybody", "blankbody", "status302", "status500",
-               "statusNone"]
+               "statusNone", "readerror"]
+# "readerror": the response object is handed out and its read() fails (connection reset in mid-body).  Not one of the statement's
+# fault kinds: which exception escapes is not judged, only that the response was closed, nothing cached and the retry complete.
 
 
 def make_client(graph):
@@ -421,6 +430,8 @@ def check_listing(seed, kind="all", fd=None, page_size=None, drive_id=None, faul
             if exc is None:
                 if not tolerated:
                     return dict(rec, expected="an error of the client's family", observed=f"call returned {len(res)} records")
+            elif fk == "readerror":
+                pass
             else:
                 if not isinstance(exc, SharePointError):
                     return dict(rec, expected="an error of the client's own family (SharePointError)",
